@@ -545,3 +545,17 @@ def rules(ctx: Ctx) -> None:
     # per-query lists then fail inside networkx on the second statement)
     _common.import_rules(ctx, "C12", {"R12.1": "R10.12"}, key_filter=lambda o: "swallow" in o.key)
     _common.import_rules(ctx, "C05", {"R05.3": "R10.12"}, key_filter=lambda o: o.key.startswith(("analyzer-state", "per-query-object")))
+
+    # ---- R10.13 no attribute of a third-party module is re-bound (limits, tables and functions of sqlparse / sqlfluff / networkx stay what the
+    # library ships: a tightened recursion or token limit makes sqlparse raise its own error on input the contract covers)
+    n_patch = 0
+    for f in prog.funcs.values():
+        for k in prog.walk_fn(f):
+            if isinstance(k, ast.Attribute) and isinstance(k.ctx, ast.Store) and isinstance(k.value, (ast.Name, ast.Attribute)):
+                root = k.value
+                while isinstance(root, ast.Attribute):
+                    root = root.value
+                if isinstance(root, ast.Name) and not prog.local_defs(f, root.id) and root.id not in f.params() and prog.resolve(f.mod.name, root.id, f)[0] in ("ext", "extmod"):
+                    n_patch += 1
+                    ctx.ob("R10.13", f"third-party-attribute-not-rebound:{f.owner}:{u(k)}", False, loc(f.mod, k), f"`{u(prog.enclosing_stmt(k))[:70]}` changes `{u(k)}` of a third-party module for the whole process")
+    ctx.ob("R10.13", "third-party-attribute-not-rebound:scanned", True, "sqllineage/", f"{n_patch} assignment(s) to attributes of third-party modules found", trivial=True)
